@@ -79,7 +79,7 @@ func execHist(spec *RunSpec, st *Stats) *Violation {
 		if op.Kind == "PkgConvert" {
 			cfg = Config{}
 		}
-		if op.Kind == "AuxConvert" {
+		if op.Kind == "AuxConvert" || op.Kind == "RenderOther" {
 			cfg = *op.Aux
 		}
 		src := env.pristine(op.Doc)
@@ -93,11 +93,17 @@ func execHist(spec *RunSpec, st *Stats) *Violation {
 			}
 			continue
 		}
-		isRerender := (op.Kind == "Render") && res.Tree.renders >= 2
+		isRerender := (op.Kind == "Render" || op.Kind == "RenderOther") && res.Tree.renders >= 2
 		if st != nil {
 			st.Inc("checked_ops")
 			if isRerender {
 				st.Inc("probe.rerenders")
+			}
+			if op.Kind == "RenderOther" {
+				st.Inc("probe.renders_by_other_renderer")
+			}
+			if op.Kind == "Render" && res.Tree.otherRenders > 0 {
+				st.Inc("probe.renders_after_other_renderer")
 			}
 			if op.Kind == "Render" && i-res.Tree.born > 5 {
 				st.Inc("probe.stale_tree_renders")
@@ -111,6 +117,9 @@ func execHist(spec *RunSpec, st *Stats) *Violation {
 				cl, d := "output-differs", "output on the long-lived instance differs from a fresh instance converting the same source alone"
 				if isRerender {
 					cl, d = "rerender-differs", fmt.Sprintf("render #%d of the same parsed tree differs from the reference output", res.Tree.renders)
+				}
+				if op.Kind == "RenderOther" {
+					cl, d = "rerender-differs", fmt.Sprintf("render #%d of the parsed tree, by the Renderer of an instance configured %s (same parser side), differs from what that configuration gives for the source", res.Tree.renders, cfg)
 				}
 				return &Violation{Class: cl, Client: 0, Op: i, Want: ref.out, Got: res.Out, Detail: d}
 			}
@@ -300,6 +309,17 @@ func genHistSpec(p *histParams, c *Corpus, run int) *RunSpec {
 			ops = append(ops, Op{Kind: "Render", Tree: slot, Stack: stack})
 			if ro.Chance(1, 3) { // re-render right away
 				ops = append(ops, Op{Kind: "Render", Tree: slot, Stack: genStack(ro)})
+			}
+			if rv := ro.Split("render-other"); rv.Chance(1, 4) {
+				// the same tree through the Renderer of an instance whose renderer side differs
+				// (before, between or after renders by our own Renderer)
+				v := rendererVariant(rv, cfg)
+				o := Op{Kind: "RenderOther", Tree: slot, Stack: genStack(rv), Aux: &v}
+				if rv.Chance(1, 2) && len(ops) > 0 {
+					ops = append(ops[:len(ops)-1], o, ops[len(ops)-1])
+				} else {
+					ops = append(ops, o)
+				}
 			}
 		case k < 88:
 			if len(liveTrees) == 0 {
